@@ -77,7 +77,7 @@ def cases(tier, seed):
     base += designs.op_cases([1, 3, 8] + ([40, 65] if tier != 'quick' else []), ops='w+-', dests=('reg',))
     base += [dict(c, reset=(1 << c['wd']) - 1) for c in designs.op_cases([3, 8, 40], ops='w', dests=('reg',))]
     base += designs.seq_cases(widths=(1, 4) if tier == 'quick' else (1, 4, 8, 65))
-    base += designs.misc_cases() + names_cases()
+    base += designs.misc_cases() + names_cases() + designs.carg_cases((1, 3))
     base += designs.expr_cases(20 if tier == 'quick' else 400, seed + 41, n=7, maxw=6, ops=['+', '-', '*', '&', '|', '^', '~', '<', '>', '=', 'x', 'c', 's', 'trunc', 'const'])
     base += [{'fam': 'MEM', 'aw': 2, 'bw': 4, 'nr': 2, 'nw': 2}, {'fam': 'MEM', 'aw': 3, 'bw': 70, 'nr': 1, 'nw': 1, 'read_own_write': True},
              {'fam': 'ROM', 'aw': 3, 'bw': 5, 'data': 'list', 'nr': 2}, {'fam': 'ROM', 'aw': 2, 'bw': 40, 'data': 'func', 'nr': 1}]
